@@ -186,7 +186,12 @@ def check_single(nap, c, mout, res=None):
     if r_idx != m_idx:
         D.append({"op": "restrict(epoch) vs model epoch_idx", "input": inp, "impl": r_idx, "model": m_idx})
     # ---------------- compute_fft
-    out = nap.compute_fft(sig, full_range=full, norm=norm, **kw)
+    try:
+        out = nap.compute_fft(sig, full_range=full, norm=norm, **kw)
+    except Exception as ex:
+        V.append({"key": {"op": "compute_fft", "full_range": full, "norm": norm, "part": "raises"}, "what": "compute_fft raised on a valid single-epoch input",
+                  "input": inp, "impl": repr(ex)[:300], "expected": "the DFT rows"})
+        return V, D
     for ci, col in enumerate(cols):
         rows, y, X = oracle_fft(ts, col, s, e, n, fs_eff, full, norm)
         n1 = len(y)
@@ -226,13 +231,18 @@ def check_single(nap, c, mout, res=None):
                     D.append({"op": "inverse transform of compute_fft vs model crop_pad", "input": inp, "impl": rb, "model": m_cp})
     # ---------------- compute_power_spectral_density (norm does not apply)
     if not norm:
-        out = nap.compute_power_spectral_density(sig, full_range=full, **kw)
+        try:
+            out = nap.compute_power_spectral_density(sig, full_range=full, **kw)
+        except Exception as ex:
+            V.append({"key": {"op": "compute_power_spectral_density", "full_range": full, "part": "raises"}, "what": "PSD raised on a valid single-epoch input",
+                      "input": inp, "impl": repr(ex)[:300], "expected": "the PSD rows"})
+            return V, D
         fsn, fsd = frac(fs_eff)
         mm = mout[2].split("|") if len(mout) > 2 else None
         for ci, col in enumerate(cols):
             rows, y, X = oracle_psd(ts, col, s, e, n, fs_eff, full)
             n1 = len(y)
-            key = {"op": "compute_power_spectral_density", "full_range": full}
+            key = {"op": "compute_power_spectral_density", "full_range": full, "regime": "fs/(2n)<=1e-6" if fs_eff / (2 * n1) <= 1.0000001e-6 else "fs/(2n)>1e-6"}
             if len(out) != len(rows):
                 V.append({"key": dict(key, part="rows"), "what": "PSD returns %d rows, expected %d" % (len(out), len(rows)), "input": inp, "impl": len(out), "expected": len(rows)})
                 continue
@@ -308,7 +318,7 @@ def single_cases(tier, seed):
                             out.append((m, s, e, n, fs, full, norm))
     if tier == "quick":
         edge = [c for c in out if c[0] <= 3 and c[6] is False]
-        out = rng.sample(out, 2600) + rng.sample(edge, 300)
+        out = rng.sample(out, 5500) + rng.sample(edge, 500)
     cases = []
     for i, (m, s, e, n, fs, full, norm) in enumerate(out):
         r2 = random.Random(seed * 7 + i)
@@ -330,8 +340,20 @@ def single_cases(tier, seed):
     return cases
 
 
-def run_single(nap, res, tier, seed):
-    cases = single_cases(tier, seed)
+def low_rate_cases():
+    """sampling rates with fs/(2n) <= 1e-6 (one sample every 2^20 s): the regime where the absolute 1e-6 guard of the one-sided mask bites.
+    Dyadic spacing and a support of length m*2^20 s so that the inferred rate is exactly 2^-20 Hz."""
+    SP = (2 ** 20) * 10 ** 9
+    out = []
+    for m, col in ((3, [1, 2, 4]), (4, [3, 1, 4, 1]), (5, [2, 7, 1, 8, 2]), (8, [3, 1, 4, 1, 5, 9, 2, 6])):
+        ts = [SP * j for j in range(m)]
+        for fs in (2.0 ** -20, None):
+            for full in (False, True):
+                out.append({"ts": ts, "cols": [col], "support": (0, m * SP), "ep": False, "s": 0, "e": m * SP, "n": None, "fs": fs, "full": full, "norm": False})
+    return out
+
+
+def run_single(nap, res, cases, tag="single"):
     lines, offs = [], []
     for c in cases:
         l = model_lines_single(c)
@@ -351,11 +373,11 @@ def run_single(nap, res, tier, seed):
         rel = "n<len" if n1 < len(x) else "n==len" if n1 == len(x) else "n>len"
         res.case((tuple(c["ts"]), tuple(map(tuple, c["cols"])), c["support"], c["ep"], c["s"], c["e"], c["n"], c["fs"], c["full"], c["norm"]),
                  nontrivial=n1 >= 2)
-        res.count("single:" + rel)
-        res.count("single:parity=" + ("even" if n1 % 2 == 0 else "odd"))
-        res.count("single:fs=" + ("inferred" if c["fs"] is None else "given"))
-        res.count("single:" + ("TsdFrame" if len(c["cols"]) > 1 else "Tsd"))
-        res.count("single:" + ("epoch_cuts_signal" if len(x) < len(c["ts"]) else "whole_signal"))
+        res.count(tag + ":" + rel)
+        res.count(tag + ":parity=" + ("even" if n1 % 2 == 0 else "odd"))
+        res.count(tag + ":fs=" + ("inferred" if c["fs"] is None else "given"))
+        res.count(tag + ":" + ("TsdFrame" if len(c["cols"]) > 1 else "Tsd"))
+        res.count(tag + ":" + ("epoch_cuts_signal" if len(x) < len(c["ts"]) else "whole_signal"))
         V, D = check_single(nap, c, mo[o:o + k], res)
         res.violations.extend(V)
         res.disagreements.extend(D)
@@ -404,7 +426,7 @@ def check_mean(nap, c, mline, res=None):
     isz = {"s": L / 1e9, "ms": L / 1e6, "us": L / 1e3}[unit]
     try:
         out = nap.compute_mean_power_spectral_density(sig, isz, overlap=float(ov), full_range=full, time_unit=unit, **kw)
-    except (RuntimeError, ValueError) as ex:
+    except Exception as ex:
         out = None
     plan = None if mline == "none" else mline.split("|")
     for ci, col in enumerate(cols):
@@ -434,6 +456,7 @@ def check_mean(nap, c, mline, res=None):
             continue
         bucket = V if exp["uniform"] else D
         rows = exp["rows"]
+        key = dict(key, regime="fs/(2n)<=1e-6" if fs_eff / (2 * exp["N"]) <= 1.0000001e-6 else "fs/(2n)>1e-6")
         if len(out) != len(rows):
             bucket.append({"key": dict(key, part="rows"), "op": "mean_psd", "what": "mean PSD has %d rows, expected %d (N=%d)" % (len(out), len(rows), exp["N"]), "input": inp,
                            "impl": len(out), "expected": len(rows)})
@@ -472,7 +495,7 @@ def mean_cases(tier, seed):
             for ep in eps:
                 out.append((ep, L, st, ov))
     if tier == "quick":
-        out = rng.sample(out, 1500)
+        out = rng.sample(out, 3000)
     cases = []
     for i, (ep, L, st, ov) in enumerate(out):
         r2 = random.Random(seed * 11 + i)
@@ -504,8 +527,16 @@ def mean_cases(tier, seed):
     return cases
 
 
+def low_rate_mean_cases():
+    SP = (2 ** 20) * 10 ** 9
+    ts = [SP * j for j in range(12)]
+    col = [3, 1, 4, 1, 5, 9, 2, 6, 5, 3, 5, 8]
+    return [{"ts": ts, "cols": [col], "ep": [(0, 12 * SP)], "L": 3 * SP + SP // 2, "st": 3 * SP + SP // 2, "ov": 0.0, "fs": 2.0 ** -20, "full": full, "unit": "s",
+             "support": (0, 12 * SP), "ep_given": True, "irregular": False} for full in (False, True)]
+
+
 def run_mean(nap, S, res, tier, seed):
-    cases = mean_cases(tier, seed)
+    cases = mean_cases(tier, seed) + low_rate_mean_cases()
     lines = []
     for c in cases:
         lines.append("split\t%s\t%d\t%d" % (C.fmt_iset(c["ep"]), c["L"], c["st"]))
@@ -568,8 +599,12 @@ def run(res, tier, seed):
                 "sorted fftfreq, Parseval, doubling rule. PUBLIC compute_mean_power_spectral_density + kernel _overlap_split: every single epoch and random epoch pairs on a dyadic lattice x "
                 "interval_size in {1,2,3}*2^-7 s x overlap in {0,.25,.5,.75} x sampling step x regular/irregular sampling x 3 time units x fs given/inferred x full/one-sided; oracle = independent "
                 "recomputation (segments strictly inside, Hamming formula, direct DFT, average). non-trivial = n >= 2 points / >= 2 segments; distinct = distinct full inputs")
-    res.exhaustive = tier == "thorough"
-    run_single(nap, res, tier, seed)
+    # thorough enumerates the complete structural product (lengths, windows, n, fs, flags; epochs, L, overlap); the integer data values and the
+    # irregular-sampling patterns are seeded random, so the space is not declared exhaustive
+    res.exhaustive = False
+    res.extra["structure_enumerated_completely"] = tier == "thorough"
+    run_single(nap, res, single_cases(tier, seed))
+    run_single(nap, res, low_rate_cases(), tag="low_rate")
     run_mean(nap, S, res, tier, seed)
     run_split_decimal(S, res, tier, seed)
 
